@@ -763,7 +763,7 @@ package ring
 //@ afunc BasisExtender.ModDownQPtoQNTT
 //@   trusted opaque at the abstract level (the rounded division by P; coefficient-level contract: property C02): writes the output only; its value is NAMED as a function of the two parts of the input (uf_moddown)
 //@   assigns p2Q
-//@   ensures val(p2Q) == uf_moddown(old(val(p1Q)), old(val(p1P)))
+//@   ensures val(p2Q) == uf_moddown(old(val(p1Q)), old(val(p1P))) && isntt(p2Q)
 
 //@ afunc Ring.MulRNSScalarMontgomery
 //@   trusted the Montgomery product with an RNS scalar; the ring value and the Montgomery exponent of the scalar are NAMED by uninterpreted functions of its contents (uf_rnsval, uf_rnsmexp)
